@@ -603,8 +603,12 @@ def getResponse (s : State) (c k rid : Nat) (rc : ReqCfg) : State × RespOut :=
     let s := { s with resps := s.resps ++ [{ rid := rid, fp := some k, isHead := rc.isHead }] }
     match readHead (inboundLen s k + 2) s r k with
     | (s, .exc e) =>
-      -- `except ConnectionError: self.close(); raise` … `except: response.close(); raise`
-      let s := if isSub e.cls Gen.cConnectionError then connClose s c else s
+      -- `except ConnectionError: self.close(); raise` … `except: response.close(); raise`;
+      -- urllib3's `getresponse` puts `_has_connected_to_proxy` back after that `close()`
+      -- (`except ConnectionError: self._has_connected_to_proxy = has_connected_to_proxy; raise`)
+      let s := if isSub e.cls Gen.cConnectionError then
+          setConn (connClose s c) c fun x => { x with proxyConnected := cn.proxyConnected }
+        else s
       (closeFp s r, .exc e)
     | (s, .ok h) =>
       let noBody := h.status == 204 || h.status == 304 || (100 ≤ h.status && h.status < 200) || rc.isHead
@@ -618,6 +622,17 @@ def getResponse (s : State) (c k rid : Nat) (rc : ReqCfg) : State × RespOut :=
         | (s, .exc e) => (s, .exc e)
         | (s, .data _) => (s, .resp r)
       else (s, .resp r)
+
+/-- the end of `_make_request`: `response._connection = response_conn; response._pool = self`, then
+`if response_conn is not None and response.closed: response.release_conn()` — a preloaded body was
+read to the end before the response got hold of its connection, so that read could not release it -/
+def attachResp (s : State) (c r : Nat) (rc : ReqCfg) : State × RespOut :=
+  let s := setResp s r fun x => { x with conn := if rc.release then none else some c, hasPool := true }
+  if !rc.release && respFpClosed s r then
+    match releaseConn s r with
+    | (s, some e) => (s, .exc e)          -- `_put_conn` raised (`FullPoolError`)
+    | (s, none) => (s, .resp r)
+  else (s, .resp r)
 
 /-- `_make_request(conn, …)` for a plain-HTTP pool (`_validate_conn` is a no-op) -/
 def makeRequest (s : State) (c rid : Nat) (a : Attempt) (rc : ReqCfg) : State × RespOut :=
@@ -639,8 +654,7 @@ def makeRequest (s : State) (c rid : Nat) (a : Attempt) (rc : ReqCfg) : State ×
     match getResponse s c k rid rc with
     | (s, .exc e) => (s, .exc (translateRecv e))
     | (s, .resp r) =>
-      -- `response._connection = response_conn; response._pool = self`
-      (setResp s r fun x => { x with conn := if rc.release then none else some c, hasPool := true }, .resp r)
+      attachResp s c r rc
 
 /-! ## `urlopen` -/
 
